@@ -14,7 +14,7 @@ RULE = ("pairs (s,t) of strings: exhaustive over small alphabets/lengths plus sa
         "distinct = distinct (s,t,drive mode)")
 ASSUMPTIONS = ["reference = textbook LCS DP (gv/oracle.py:lcs_len)",
                "a Match between unequal characters counts as one removed plus one inserted character"]
-MINIMUMS = {"quick": {"scripts_judged": 60000, "string_edits": 50000},
+MINIMUMS = {"quick": {"scripts_judged": 60000, "string_edits": 50000, "renderings_judged": 2000},
             "thorough": {"scripts_judged": 500000, "string_edits": 400000}}
 
 
@@ -39,6 +39,8 @@ def plan(tier, seed):
                           "k": k, "of": nshard, "exhaustive": True, "shard_timeout": 3000})
     for k in range(nsample):
         specs.append({"stratum": "sampled", "n": per, "k": k})
+    for k in range(2 if tier == "quick" else 8):
+        specs.append({"stratum": "rendered-marks", "n": 1500 if tier == "quick" else 20000, "k": k, "rendered": True})
     return specs
 
 
@@ -57,6 +59,16 @@ def gen_cases(spec, ctx):
                 idx += 1
         return
     r = ctx.rng
+    if spec.get("rendered"):
+        for _ in range(spec["n"]):
+            al = r.choice(["ab", "abc", "abcd", "01"])
+            s = "".join(r.choice(al) for _ in range(r.randint(0, 12)))
+            t = "".join(r.choice(al) for _ in range(r.randint(0, 12)))
+            if r.random() < 0.5 and s:
+                i = r.randrange(len(s))
+                t = s[:i] + r.choice(["", "x", "ab"]) + s[i + r.randint(0, 2):]
+            yield {"s": s, "t": t, "mode": 3}
+        return
     for _ in range(spec["n"]):
         al = r.choice(ALPHABETS)
         def rs(maxlen):
@@ -131,7 +143,40 @@ def script_of(s, t, mode, ctx=None):
     return [("?", type(e).__name__, None)], (None, None)
 
 
+def check_rendered(case, ctx):
+    """What the user sees: in the colour rendering of the JSON formatter, the characters of the string literal that
+    carry no mark must number LCS(s,t), the removed ones |s|-LCS, the inserted ones |t|-LCS."""
+    import io
+    import graphtage
+    import graphtage.json as gj
+    import graphtage.printer as gp
+    from gv import oracle
+    s, t = case["s"], case["t"]
+    out = io.StringIO()
+    p = gp.Printer(out_stream=out, ansi_color=True, quiet=True)
+    with p:
+        gj.JSONFormatter.DEFAULT_INSTANCE.print(p, graphtage.StringNode(s).diff(graphtage.StringNode(t)))
+    dec = oracle.ansi_decode(out.getvalue())
+    body = [(c, cls) for c, cls, sep in dec if not sep and c != '"']
+    kept = sum(1 for c, cls in body if cls == "common")
+    removed = sum(1 for c, cls in body if cls == "removed")
+    inserted = sum(1 for c, cls in body if cls == "inserted")
+    ref = lcs_len(s, t)
+    if ctx is not None:
+        ctx.count("renderings_judged")
+        ctx.seen(case, nontrivial=(s != t and bool(s) and bool(t)))
+    if (kept, removed, inserted) != (ref, len(s) - ref, len(t) - ref):
+        return [{"kind": "rendered-marks-not-minimal", "kept": kept, "removed": removed, "inserted": inserted, "lcs": ref,
+                 "text": out.getvalue()[:200]}]
+    return []
+
+
 def check(case, ctx):
+    if case["mode"] == 3:
+        try:
+            return check_rendered(case, ctx)
+        except Exception as ex:  # noqa
+            return [core.exc_diag("exception", ex)]
     s, t, mode = case["s"], case["t"], case["mode"]
     try:
         script, cost = script_of(s, t, mode, ctx)
